@@ -247,7 +247,15 @@ class Shape:
 
     def result(self, fi, env):
         rets = self.run(fi, env)
-        # the main result is the LAST return that is informative (early returns are guards: `return {}`, `return None`, ...)
+        # the main result is the LAST return statement that is informative (early returns are guards: `return {}`, `return None`, ...);
+        # when a return statement was reached on several forked paths, the path that took the `if` bodies comes first and is kept
+        seen_nodes, uniq = set(), []
+        for node, v in rets:
+            if id(node) in seen_nodes:
+                continue
+            seen_nodes.add(id(node))
+            uniq.append((node, v))
+        rets = uniq
         out = None
         for node, v in reversed(rets):
             if isinstance(v, NoneT) or is_unk(v):
@@ -327,7 +335,10 @@ class Shape:
             if e.attr == 'shape':
                 return Tup([SizeOf(a) for a in v.axes])
             if e.attr == 'T':
-                return Arr(tuple(reversed(v.axes)), v.elem)
+                r = Arr(tuple(reversed(v.axes)), v.elem)
+                if getattr(v, 'roles', None):
+                    r.roles, r.role_name = tuple(reversed(v.roles)), getattr(v, 'role_name', 'matrix')
+                return r
             if e.attr == 'size':
                 return SizeOf(v.axes[0]) if len(v.axes) == 1 else Q()
             if e.attr == 'ndim':
@@ -508,6 +519,7 @@ class Shape:
         pos = 0
         slots = []
         comp_tags = []
+        keep_roles = None
         keep_sorted = base.sorted
         for i in idx_nodes:
             if isinstance(i, ast.Constant) and i.value is Ellipsis:
@@ -571,6 +583,7 @@ class Shape:
                 pos += 1
                 slots.append(('basic', a0.axes[0] if isinstance(a0, Arr) else UNK))
                 slots.append(('basic', a1.axes[0] if isinstance(a1, Arr) else UNK))
+                keep_roles = getattr(base, 'roles', None) if len(idx_nodes) == 1 else None
                 continue
             slots.append(('adv', [UNK]))
         for a in axes[pos:]:
@@ -602,6 +615,8 @@ class Shape:
             return el
         r = Arr(tuple(out), el)
         r.sorted = keep_sorted and len(out) == 1
+        if keep_roles:
+            r.roles, r.role_name = keep_roles, getattr(base, 'role_name', 'matrix')
         return r
 
     def check_ix(self, node, axis, ix, inode):
@@ -806,6 +821,17 @@ class Shape:
             if isinstance(ea, Ix) and isinstance(eb, Ix) and ea.space is not eb.space:
                 self.report('space', e, 'membership test of %s in a set of %s' % (ea, eb))
             return Arr(a0.axes, BoolT()) if isinstance(a0, Arr) else BoolT()
+        if np_ == 'where' and len(args) == 3:
+            cands = [x for x in args[1:] if isinstance(x, Arr)] or [x for x in args[1:] if isinstance(x, Ix)]
+            pick = None
+            for x in cands:
+                if isinstance(elem_of(x), Ix):
+                    pick = x
+            pick = pick or (cands[0] if cands else None)
+            if pick is None:
+                return UNK
+            axes = pick.axes if isinstance(pick, Arr) else (a0.axes if isinstance(a0, Arr) else ())
+            return Arr(axes, elem_of(pick)) if axes else elem_of(pick)
         if np_ in ('nonzero', 'where', 'flatnonzero'):
             if isinstance(a0, Arr) and len(args) == 1:
                 out = []
@@ -876,9 +902,29 @@ class Shape:
             if len(args) >= 2 and isinstance(args[1], Q):
                 return Arr((Space('Range', (e.lineno, e.col_offset)),), Q())
             return Arr((UNK,), Q())
+        if np_ == 'tensordot' and len(args) >= 2 and isinstance(args[0], Arr) and isinstance(args[1], Arr):
+            a, b = args[0], args[1]
+            axn = kw.get('axes') if 'axes' in kw else (e.args[2] if len(e.args) > 2 else None)
+            ia = ib = None
+            if isinstance(axn, ast.Tuple) and len(axn.elts) == 2:
+                ia, ib = const_value(axn.elts[0]), const_value(axn.elts[1])
+            elif axn is not None and const_value(axn) == 1:
+                ia, ib = len(a.axes) - 1, 0
+            if isinstance(ia, int) and isinstance(ib, int) and -len(a.axes) <= ia < len(a.axes) and -len(b.axes) <= ib < len(b.axes):
+                ia %= len(a.axes)
+                ib %= len(b.axes)
+                if a.axes[ia] is not b.axes[ib] and not is_unk(a.axes[ia]) and not is_unk(b.axes[ib]):
+                    self.report('space', e, 'tensordot contracts an axis of space %s with an axis of space %s' % (a.axes[ia], b.axes[ib]))
+                self.role_check(e, b, ib)
+                self.role_check(e, a, ia, left=True)
+                el = qmul(a.elem, b.elem) if isinstance(a.elem, Q) and isinstance(b.elem, Q) else UNK
+                return Arr(tuple(x for i, x in enumerate(a.axes) if i != ia) + tuple(x for i, x in enumerate(b.axes) if i != ib), el)
+            return UNK
         if np_ in ('matmul', 'dot') and len(args) == 2:
             a, b = args
             if isinstance(a, Arr) and isinstance(b, Arr) and a.axes and b.axes:
+                self.role_check(e, b, 0 if len(b.axes) <= 2 else len(b.axes) - 2)
+                self.role_check(e, a, len(a.axes) - 1, left=True)
                 bc = b.axes[0] if len(b.axes) <= 2 else b.axes[-2]
                 if a.axes[-1] is not bc and not is_unk(a.axes[-1]) and not is_unk(bc):
                     self.report('space', e, 'matrix product contracts an axis of space %s with an axis of space %s' % (a.axes[-1], bc))
@@ -895,6 +941,11 @@ class Shape:
             for sub, a in zip(ops, arrs):
                 if not isinstance(a, Arr) or len(sub) != len(a.axes):
                     return UNK
+                if getattr(a, 'roles', None):
+                    for pos_, ch in enumerate(sub):
+                        contracted = ch not in out and sum(ch in o for o in ops) >= 2
+                        if contracted:
+                            self.role_check(e, a, pos_, left=(a is not arrs[-1]))
                 for ch, ax in zip(sub, a.axes):
                     if ch in letter and letter[ch] is not ax and not is_unk(ax) and not is_unk(letter[ch]):
                         self.report('space', e, "einsum index '%s' ranges over %s in one operand and over %s in another" % (ch, letter[ch], ax))
@@ -1079,6 +1130,17 @@ class Shape:
             return StrT()
         return None
 
+    def role_check(self, node, m, axis, left=False):
+        """A matrix with axis roles ('in', 'out') must be contracted on its 'in' axis when it multiplies from the right (x @ M),
+        on its 'out' axis when it multiplies from the left (M @ x): otherwise the product uses the transpose of M."""
+        roles = getattr(m, 'roles', None)
+        if not roles or axis >= len(roles):
+            return
+        want = 'out' if left else 'in'
+        if roles[axis] != want:
+            self.report('role', node, 'the %s is contracted on its %s axis: the product uses the TRANSPOSE of the matrix (identical only for symmetric matrices)' %
+                        (getattr(m, 'role_name', 'matrix'), {'in': 'input', 'out': 'output'}[roles[axis]]))
+
     def iter_elem(self, a):
         if isinstance(a, ListT):
             return a.elem
@@ -1209,7 +1271,35 @@ class Shape:
 
     # ------------------------------------------------------------------ statements
     def block(self, stmts, env, rets):
-        for s in stmts:
+        for k, s in enumerate(stmts):
+            if isinstance(s, ast.If) and self.truth(s.test, env) is None and getattr(self, 'forks', 0) < 6:
+                # analyse the continuation once per branch when the branches leave different array types behind
+                self.ev(s.test, env)
+                e1, e2 = dict(env), dict(env)
+                x1 = self.block(s.body, e1, rets)
+                x2 = self.block(s.orelse, e2, rets)
+                if x1 == 'exit' and x2 == 'exit':
+                    return 'exit'
+                rest = stmts[k + 1:]
+                differs = x1 != 'exit' and x2 != 'exit' and any(_sig(e1.get(n)) != _sig(e2.get(n)) for n in set(e1) | set(e2)
+                                                                if isinstance(e1.get(n), Arr) and isinstance(e2.get(n), Arr))
+                if differs:
+                    self.forks = getattr(self, 'forks', 0) + 1
+                    r1 = self.block(rest, e1, rets)
+                    r2 = self.block(rest, e2, rets)
+                    env.clear()
+                    env.update(e1)
+                    return 'exit' if (r1 == 'exit' and r2 == 'exit') else None
+                env.clear()
+                if x1 == 'exit':
+                    env.update(e2)
+                elif x2 == 'exit':
+                    env.update(e1)
+                else:
+                    for n in set(e1) | set(e2):
+                        a, b = e1.get(n, UNK), e2.get(n, UNK)
+                        env[n] = a if (a is b or is_unk(b) or isinstance(b, NoneT) or repr(a) == repr(b)) else (b if is_unk(a) or isinstance(a, NoneT) else a)
+                continue
             if self.stmt(s, env, rets) == 'exit':
                 return 'exit'
         return None
@@ -1324,6 +1414,12 @@ class Shape:
                 self.report('dim', s, 'values of dimension %s are stored into an array of %s' % (ve, tgt.elem))
         elif isinstance(t, ast.Attribute):
             pass
+
+
+def _sig(v):
+    if isinstance(v, Arr):
+        return (tuple(id(a) for a in v.axes), repr(v.elem), getattr(v, 'roles', None))
+    return repr(type(v))
 
 
 def _load(t):
